@@ -224,6 +224,35 @@ def FF():
     return None
 
 
+def LL():
+    """new_space(bases=[A, B]) accepts bases that use one name for a cells and for a reference"""
+    m = _reset()
+    A_, B_ = m.new_space("A"), m.new_space("B")
+    A_.new_cells("x", formula="lambda i: 1")
+    B_.x = 5
+    try:
+        C_ = m.new_space("C", bases=[A_, B_])
+    except Exception:     # noqa
+        return None
+    if "x" in C_.cells and "x" in C_._own_refs:
+        return "C(A, B) has a cells and a reference named x"
+    return None
+
+
+def MM():
+    """new_cells without a name takes the formula's name unchecked: cells named like a reference of the space"""
+    m = _reset()
+    S = m.new_space("S")
+    S.x = 1
+    try:
+        S.new_cells(formula="def x(i):\n    return i")
+    except Exception:     # noqa
+        return None
+    if "x" in S.cells and "x" in S._own_refs:
+        return "S has a cells and a reference named x"
+    return None
+
+
 # ------------------------------------------------------------------ C03
 def B():
     """redefining a base cells overwrites copies deriving from an override in between"""
